@@ -7,6 +7,7 @@ import (
 	"errors"
 	"fmt"
 	"io"
+	"math"
 	"math/rand"
 	"net"
 	"sync/atomic"
@@ -756,7 +757,12 @@ func (p *protocolV2) REQ(client *clientV2, params [][]byte) ([]byte, error) {
 		return nil, protocol.NewFatalClientErr(err, "E_INVALID",
 			fmt.Sprintf("REQ could not parse timeout %s", params[2]))
 	}
-	timeoutDuration := time.Duration(timeoutMs) * time.Millisecond
+	// saturate instead of wrapping: time.Duration(timeoutMs) * time.Millisecond overflows
+	// int64 for timeoutMs > MaxInt64/1e6 and would slip under the max-req-timeout clamp
+	timeoutDuration := time.Duration(math.MaxInt64)
+	if timeoutMs <= uint64(math.MaxInt64/int64(time.Millisecond)) {
+		timeoutDuration = time.Duration(timeoutMs) * time.Millisecond
+	}
 
 	maxReqTimeout := p.nsqd.getOpts().MaxReqTimeout
 	clampedTimeout := timeoutDuration
